@@ -404,7 +404,7 @@ pub fn property() -> Property {
         id: "C16",
         title: "Label ordering is a total order equal to CBOR's deterministic key ordering",
         rule: "pairs/triples/multisets of labels (exhaustive over a ~75-element boundary lattice of integers and texts, \
-               all pairs of every registry's assigned/private/text labels obtained by decoding, plus tape-generated random labels); \
+               all pairs of every registry's assigned/private/text labels obtained by decoding, plus tape-generated random labels and related text pairs: late difference, long common prefix, equal byte length with BMP-high vs supplementary characters, composed / decomposed, case, hash-colliding); \
                a pair is non-trivial when it straddles an encoding-length boundary, mixes sign or kind, or has texts of equal length; \
                distinct by the labels themselves",
         assumptions: &["oracle: own deterministic encoder (harness/src/cbor.rs) and bytewise / length-first comparison of its output"],
